@@ -5,7 +5,7 @@ From Verif Require Import Codec.Model.
 Extraction Language OCaml.
 Extraction "codec_model.ml"
   encode_bytes decode_bytes lex_cmp
-  int_to_cmp cmp_to_int
+  int_to_cmp cmp_to_int u64_of_int int_of_u64 int_to_cmp_xor cmp_to_int_xor
   encode_uint encode_uint_desc encode_int encode_int_desc
   decode_uint decode_uint_desc decode_int decode_int_desc
   encode_uvarint decode_uvarint encode_varint decode_varint
